@@ -541,8 +541,8 @@ pub fn run(kind: &str, ctx: &Ctx, out: &mut dyn Write) {
             _ => None,
         };
         if let Some(cmd) = cmd {
-            // (c2d files that keep a false node: finding K7 is reported by the direct call above)
-            if inp.n <= 12 && k % 3 == 0 && !(c2d_false && kind == "c05") {
+            // (c2d files that keep a false node are an ordinary class since the repair F22 of K7)
+            if inp.n <= 12 && k % 3 == 0 {
                 let mut srng = Rng::new(ctx.seed ^ 0x5713_0000 ^ k as u64);
                 let lines = crate::k_c13::query_lines(cmd, inp.n, &mut srng, if quick { 8 } else { 24 });
                 let block = crate::k_c13::stream_case(&format!("{}-stream", inp.id), &inp, &lines);
